@@ -256,6 +256,45 @@ def codecs():
     return n
 
 
+JSON_TEXTS = ['{}', '[]', '0', '-0', '1.5', '1e5', '1E-2', 'null', 'true', 'false', '""', '"a"', '{"a": 1}', '{"a": 1}\n',
+              '{\n    "k": "v"\n}\n', '[1, 2, {"x": null}]', '"\\n\\t\\"\\\\\\/\\b\\f\\r"', '"\\u00e9"', '"\\ud83d\\ude00"', '"\\ud800"',
+              '"\\udc00\\ud800"', '"\\u12_4"', '"\\u 123"', '"\\u+123"', '"\\u0x12"', '"\\uD83D"', '"\\x"', '"a', 'a"', '[', ']', '{', '}',
+              '{"a"}', '{"a":}', '{"a" 1}', '{a: 1}', "{'a': 1}", '[1,]', '[,1]', '{"a": 1,}', 'nul', 'nulll', 'tru', 'NaN', 'Infinity',
+              '-Infinity', '-', '+1', '01', '1.', '.5', '1e', '1e+', '0x10', '1_0', ' 1', '1 ', '\t[\r\n]\n', '[] []', '{} x',
+              '"\x00"', '"\x1f"', '"\x7f"', '"é"', '"\U0001f600"', '{"é": "ü"}', '１', '1２', '"\\', '"\\u"', '"\\u12"', '',
+              ' ', '\n', '\ufeff{}', '[[[[[]]]]]', '{"a": {"b": [1, "c", {"d": false}]}}', '{"a": 1, "a": 2}', '123456789012345678901234567890',
+              '1.0e308', '1e999', '-1e999', '"\u2028\u2029"', '[1 2]', '{"a": 1 "b": 2}', '"\\ud83d\\u0041"', '"\\ud83dx"']
+JSON_VALUES = [{}, {'a': 1}, {'k': 'v', 'b': [1, 2.5, None, True, False]}, {'é': 'ü€\U0001f600'}, {'q': '"\\/\b\f\n\r\t'},
+               {'c': '\x00\x1f\x7f\x80\u2028'}, {'s': '\ud800'}, {'s2': '\udc00\ud800'}, {'pair': '\ud83d\ude00'}, {'n': {'m': {'o': []}}},
+               {'': ''}, {'big': 10 ** 30, 'neg': -5, 'f': 1e100}, [], [[]], 'x', 5, None, {'hdr': '#.meta: length=1\n'}]
+
+
+def json_model():
+    """the instrumented pure-Python JSON decoder / encoder (sx/jsonmodel.py) against the native json module"""
+    import json
+    from . import jsonmodel
+    n = 0
+    for t in JSON_TEXTS:
+        n += _cmp('json.loads', lambda x: json.loads(x), lambda x: jsonmodel.loads(lift(x) if len(x) else x), t)
+        try:
+            b = t.encode('utf-8')
+        except UnicodeEncodeError:
+            continue
+    for v in JSON_VALUES:
+        for kw in ({}, dict(indent=4, sort_keys=True, separators=(',', ': ')), dict(ensure_ascii=False, indent=2), dict(sort_keys=True)):
+            a = run_native(lambda: json.dumps(v, **kw))
+            b = run_native(lambda: jsonmodel.dumps(v, **kw))
+            if not same(a, b):
+                raise Mismatch('json.dumps(%r, %r): native %r != model %r' % (v, kw, a, b))
+            n += 1
+    # symbolic (pinned) string values inside a concrete structure
+    for sv in ['a', 'é', '"', '\\', '\n', '\x00', '\x7f', '\u2028', '\ud800', '\U0001f600', 'ab', '\ud83d\ude00', '€"']:
+        for kw in ({}, dict(indent=4, sort_keys=True, separators=(',', ': ')), dict(ensure_ascii=False)):
+            n += _cmp('json.dumps/sym', lambda x: json.dumps({'k': [x, 1], 'z': x}, **kw),
+                      lambda x: jsonmodel.dumps({'k': [x, 1], 'z': x}, **kw), sv)
+    return n
+
+
 def stream_lines():
     n = 0
     for data in [b'', b'a', b'a\n', b'\n\n', b'ab\ncd', b'ab\r\ncd\n', b'\nx']:
@@ -300,7 +339,7 @@ def streams():
 
 def main():
     tot = 0
-    for f in (seq_methods, int_model, regex_generic, nfa_vs_re, codecs, streams, stream_lines):
+    for f in (seq_methods, int_model, regex_generic, nfa_vs_re, codecs, streams, stream_lines, json_model):
         k = f()
         print('%-16s %6d concrete runs agree' % (f.__name__, k))
         tot += k
